@@ -2,7 +2,7 @@ SPECIFICATION Spec
 CONSTANTS
   Cls = {"P", "C", "T"}
   MsgKinds = {"explicit", "kwtemplate", "class", "kwnested"}
-  Outs = {"T", "F", "CR", "MR"}
+  Outs = {"T", "F", "CR", "MR", "CX"}
   DelayCls = {"P"}
   Vals = {"o1"}
   Depth = 3
